@@ -1156,6 +1156,8 @@ var ErrDataReset = errors.New("smtp: message transmission aborted")
 // goroutine and may outlive the transaction, so it must not look at the
 // connection's fields: it gets its own copies.
 func (c *Conn) deliverBdat(r *io.PipeReader, session Session, status *statusCollector, recipients []string, dataResult chan error) {
+	verifYield("deliver.start")
+
 	defer func() {
 		if err := recover(); err != nil {
 			c.handlePanic(err, status)
@@ -1324,6 +1326,8 @@ func (c *Conn) handleDataLMTP() {
 		done <- drainErr == nil
 	} else {
 		go func() {
+			verifYield("deliver.start")
+
 			defer func() {
 				if err := recover(); err != nil {
 					status.fillRemaining(&SMTPError{
